@@ -61,6 +61,10 @@ def units(tier):
             for anon in (0, 1):
                 if not (pf == "m1" and anon == 1):
                     us.append({"kind": "Union", "members": [a, b], "parsefrom": pf, "anon": anon})
+        # parsefrom decided at parse time (context expression / lambda evaluating to None, an index or a name)
+        for sel in (None, 1, "m1"):
+            for form in ("expr", "lambda"):
+                us.append({"kind": "Union", "members": [a, b], "parsefrom": form, "sel": sel})
     return us
 
 
@@ -150,12 +154,12 @@ def expect(kind, unit, mds, data, pos):
                 vals["m%d" % i] = r[1]
             ends.append(r[2])
         pf = unit["parsefrom"]
+        if pf in ("expr", "lambda"):
+            pf = unit.get("sel", 0)
         if pf is None:
             end = pos
         elif pf == "m1":
             end = ends[1]
-        elif pf == "expr":
-            end = ends[0]
         else:
             end = ends[pf]
         return ("ok", vals, end)
@@ -184,6 +188,8 @@ def mk_comb(unit, mnames):
         pf = unit["parsefrom"]
         if pf == "expr":
             pf = C.this._params.sel
+        elif pf == "lambda":
+            pf = lambda ctx: ctx._params.sel
         return C.Union(pf, *[(m if unit.get("anon") == i else ("m%d" % i) / m) for i, m in enumerate(mds)]), mds
     raise ValueError(k)
 
@@ -191,15 +197,15 @@ def mk_comb(unit, mnames):
 def check_parse(unit, mnames, comb, mds, data, pos, r=None):
     import construct as C
     kind = unit["kind"]
-    tsig = "%s(%s)" % (kind, ",".join(mnames)) + (":%s" % unit.get("offset") if kind == "Pointer" else "") + (":pf=%s%s" % (unit.get("parsefrom"), "" if unit.get("anon") is None else ":anon%d" % unit["anon"]) if kind == "Union" else "")
+    tsig = "%s(%s)" % (kind, ",".join(mnames)) + (":%s" % unit.get("offset") if kind == "Pointer" else "") + (":pf=%s%s%s" % (unit.get("parsefrom"), "" if "sel" not in unit else "->%r" % (unit["sel"],), "" if unit.get("anon") is None else ":anon%d" % unit["anon"]) if kind == "Union" else "")
     case = {"unit": unit, "members": mnames, "data": data, "start": pos, "op": "parse"}
     want = expect(kind, unit, mds, data, pos)
     if want is None:
         return "nonproductive", []
-    if kind == "Union" and unit["parsefrom"] == "expr":
+    if kind == "Union" and unit["parsefrom"] in ("expr", "lambda"):
         s = io.BytesIO(data); s.seek(pos)
         try:
-            v = comb.parse_stream(s, sel=0)
+            v = comb.parse_stream(s, sel=unit.get("sel", 0))
             got = ("ok", T.norm(v), s.tell())
         except C.ExplicitError:
             got = ("explicit", None, s.tell())
